@@ -686,10 +686,14 @@ func (f Function) lambdaPrint(ps *ast.PrintState, out *strings.Builder) string {
 	needBraces := len(f.Body.Statements) != 1 ||
 		f.Body.Statements[0].Value().Type() == token.LBRACE ||
 		f.Body.Statements[0].Value().Type() == token.LAMBDA
+	// also when the single statement merely starts with a map literal, e.g. ()=>{{}()}, or it'd be read as the block.
+	body := strings.Builder{}
+	f.Body.PrettyPrint(&ast.PrintState{Out: &body, Compact: ps.Compact, AllParens: ps.AllParens})
+	needBraces = needBraces || strings.HasPrefix(body.String(), "{")
 	if needBraces {
 		out.WriteString("{")
 	}
-	f.Body.PrettyPrint(ps)
+	out.WriteString(body.String())
 	if needBraces {
 		out.WriteString("}")
 	}
